@@ -2,14 +2,17 @@
    Statements only; every proof is `exact <lemma of VectorizeProofs>`.  Model: theories/Vectorize.v.
 
    What is proved for all inputs (any number of classes, units, edges): the index bookkeeping of cache_func, the
-   alignment of the grouped edge lists, both realisations of an edge projection (matrix product / indexed assignment)
-   equal to the edge sum, the branch condition, the combination of several source vector nodes and the default rule
-   (composed in C04_partial, per target unit, under the boolean guard default_survives_at), and the scalar collapse.
-   What is refuted (faithful model, replayed on the real code: corpus/C04): the full statement, by the lost default
-   (D14) and by the source variable of the first group (D3); loud classes D21, D32.
-   What is NOT proved: C04_guarded_statement (end-to-end `impl vec c st = Some (spec c st)` under `guard`): the
-   regrouping of the frontend edge list by (source class, target class) and the merge step are tied to the per-unit
-   theorems only by the correspondence run. *)
+   alignment of the grouped edge lists (with its precondition, D46), both realisations of an edge projection (matrix
+   product / indexed assignment) equal to the edge sum, the branch condition, the combination of several source vector
+   nodes and the default rule (C04_partial, per target unit, no guard since fix D57), the scalar collapse, and the
+   END-TO-END composition C04_sound: for every well-formed circuit whose class pairs each use one source variable,
+   whenever Impl does not raise, `impl vec c st` IS the vector field of the edge list (`spec c st`), vectorized or not;
+   hence C04_vec_equals_nonvec.
+   What is refuted (faithful model, replayed on the real code: corpus/C04): the full statement, by the source variable of
+   the first group (D3); loud classes D21, D32.  D14 is repaired (D57): `_before_D57` notes.
+   What is NOT proved: C04_no_err_statement (the guards no_constant_rhs and no_scalar_fanout exclude the two loud
+   classes).  C04_guarded_from_no_err shows that this is the only gap of C04_guarded_statement; the correspondence run
+   checks it on every generated circuit inside the guards. *)
 From Coq Require Import List ZArith QArith Qcanon Bool Arith.
 From PV Require Import Vectorize VectorizeProofs.
 Import ListNotations.
@@ -85,19 +88,26 @@ Theorem C04_indexed_with_duplicates_refuted : exists tr sval u,
 Proof. exact idx_with_duplicates_refuted. Qed.
 Print Assumptions C04_indexed_with_duplicates_refuted.
 
-(* ---- several source vector nodes + default: the input of one target unit (composition of the above) ---- *)
+(* ---- several source vector nodes + default: the input of one target unit (composition of the above; no guard since D57) ---- *)
 Theorem C04_partial : forall tsize ssize sval ml cs rdef u, Forall aligned_m ml ->
   all_some (map (fun m => contrib tsize (ssize m) m (sval m)) ml) = Some cs ->
-  default_survives_at ml rdef u = true ->
   input_of cs rdef u = if existsb (hits u) ml then msum ml sval u else rdef.
-Proof. exact input_partial. Qed.
+Proof. exact input_is_edge_sum. Qed.
 Print Assumptions C04_partial.
 
-Theorem C04_unconnected_unit_gets_zero : forall tsize ssize sval ml cs rdef u, Forall aligned_m ml ->
+(* notes on the mechanism before fix D57 (D14): all buffers zero-initialised *)
+Theorem C04_partial_before_D57 : forall tsize ssize sval ml cs rdef u, Forall aligned_m ml ->
   all_some (map (fun m => contrib tsize (ssize m) m (sval m)) ml) = Some cs ->
-  (2 <= length ml)%nat -> existsb (hits u) ml = false -> input_of cs rdef u = 0.
-Proof. exact unconnected_unit_gets_zero. Qed.
-Print Assumptions C04_unconnected_unit_gets_zero.
+  default_survives_at ml rdef u = true ->
+  input_of_before_D57 cs rdef u = if existsb (hits u) ml then msum ml sval u else rdef.
+Proof. exact input_partial_before_D57. Qed.
+Print Assumptions C04_partial_before_D57.
+
+Theorem C04_unconnected_unit_gets_zero_before_D57 : forall tsize ssize sval ml cs rdef u, Forall aligned_m ml ->
+  all_some (map (fun m => contrib tsize (ssize m) m (sval m)) ml) = Some cs ->
+  (2 <= length ml)%nat -> existsb (hits u) ml = false -> input_of_before_D57 cs rdef u = 0.
+Proof. exact unconnected_unit_gets_zero_before_D57. Qed.
+Print Assumptions C04_unconnected_unit_gets_zero_before_D57.
 
 (* ---- _finalize_var_def ---- *)
 Theorem C04_scalar_collapse : forall l i, (i < length l)%nat -> bget (finalize l) i = nth i l 0.
@@ -110,23 +120,40 @@ Print Assumptions C04_collapse_unequal_refuted.
 
 (* ---- the full statement is false of the faithful model ---- *)
 Definition C04_full_statement : Prop := full_statement.
-Definition C04_guarded_statement : Prop := guarded_statement.      (* stated, not proved: see the header *)
+Definition C04_guarded_statement : Prop := guarded_statement.
+Definition C04_no_err_statement : Prop := no_err_statement.        (* the remaining gap: stated, not proved *)
+
+(* end-to-end: whenever the modelled compilation does not raise, it computes the vector field of the edge list *)
+Theorem C04_sound : forall vec c st r, wf c = true -> single_source_var c = true ->
+  impl vec c st = Some r -> r = spec c st.
+Proof. exact impl_sound. Qed.
+Print Assumptions C04_sound.
+
+Theorem C04_vec_equals_nonvec : forall c st r1 r2, wf c = true -> single_source_var c = true ->
+  impl true c st = Some r1 -> impl false c st = Some r2 -> r1 = r2.
+Proof. exact vec_equals_nonvec. Qed.
+Print Assumptions C04_vec_equals_nonvec.
+
+Theorem C04_guarded_from_no_err : C04_no_err_statement -> C04_guarded_statement.
+Proof. exact guarded_from_no_err. Qed.
+Print Assumptions C04_guarded_from_no_err.
 
 Theorem C04_full_refuted : ~ C04_full_statement.
 Proof. exact full_statement_refuted. Qed.
 Print Assumptions C04_full_refuted.
 
-Theorem C04_refuted_default :
+Theorem C04_refuted_default_before_D57 :
   wf w_d14 = true /\ no_constant_rhs w_d14 = true /\ single_source_var w_d14 = true /\ no_scalar_fanout w_d14 = true /\
   default_survives w_d14 = false /\
-  impl false w_d14 st_d14 = Some (spec w_d14 st_d14) /\
-  impl true w_d14 st_d14 <> Some (spec w_d14 st_d14) /\
-  nth 2 (spec w_d14 st_d14) 0 = q 4 /\ impl true w_d14 st_d14 = Some [q 0; q (-5); q (-3); mkq (-1) 2; q 2].
-Proof. exact refuted_default. Qed.
-Print Assumptions C04_refuted_default.
+  impl_before_D57 false w_d14 st_d14 = Some (spec w_d14 st_d14) /\
+  impl_before_D57 true w_d14 st_d14 <> Some (spec w_d14 st_d14) /\
+  nth 2 (spec w_d14 st_d14) 0 = q 4 /\ impl_before_D57 true w_d14 st_d14 = Some [q 0; q (-5); q (-3); mkq (-1) 2; q 2] /\
+  guard w_d14 = true /\ impl true w_d14 st_d14 = Some (spec w_d14 st_d14).
+Proof. exact refuted_default_before_D57. Qed.
+Print Assumptions C04_refuted_default_before_D57.
 
 Theorem C04_refuted_source_var :
-  wf w_d03 = true /\ default_survives w_d03 = true /\ no_constant_rhs w_d03 = true /\ no_scalar_fanout w_d03 = true /\
+  wf w_d03 = true /\ no_constant_rhs w_d03 = true /\ no_scalar_fanout w_d03 = true /\
   single_source_var w_d03 = false /\
   impl false w_d03 st_d03 = Some (spec w_d03 st_d03) /\ impl true w_d03 st_d03 <> Some (spec w_d03 st_d03).
 Proof. exact refuted_source_var. Qed.
